@@ -7,7 +7,8 @@ use duke::tree::annotation::{Annotation, ElementValue, Object};
 use duke::tree::class::{ClassName, EnclosingMethod, InnerClass};
 use duke::tree::method::MethodParameter;
 use duke::tree::method::code::{Label, LabelRange};
-use duke::tree::module::PackageName;
+use duke::tree::field::ConstantValue;
+use duke::tree::module::{Module, PackageName};
 use duke::tree::type_annotation::{TargetInfoClass, TargetInfoCode, TargetInfoField, TargetInfoMethod, TypeAnnotation, TypePath};
 use java_string::JavaStr;
 use crate::rec::{cksum, dbg_fields, dbg_list, Pos};
@@ -72,6 +73,75 @@ pub fn canon_parameters(l: &[MethodParameter]) -> Vec<u64> {
 	let mut out = vec![l.len() as u64];
 	for p in l { opt(p.name.as_ref().map(|x| x.as_inner()), &mut out); out.push(u16::from(p.flags) as u64); }
 	out
+}
+
+// ---------------------------------------------------------------- ConstantValue and Module (coq/C17/Values2.v: canon_constant, canon_module)
+/// the tag of the pool entry kind that the variant stands for (JVMS table 4.4-A, written here independently of duke's
+/// constants), then the bits of the number / the checksum of the string
+pub fn canon_constant(c: &ConstantValue) -> Vec<u64> {
+	match c {
+		ConstantValue::Integer(x) => vec![3, *x as u32 as u64],
+		ConstantValue::Float(x) => vec![4, x.to_bits() as u64],
+		ConstantValue::Long(x) => vec![5, *x as u64],
+		ConstantValue::Double(x) => vec![6, x.to_bits()],
+		ConstantValue::String(x) => vec![8, ck(x)],
+	}
+}
+
+/// checksum of the one string literal inside a debug text (`ModuleName("a.b")`, `Some("1")`); None if the literal needed an
+/// escape or is not ASCII (then its bytes cannot be recovered from the debug text with certainty)
+fn dbg_ck(s: &str) -> Option<u64> {
+	let a = s.find('"')?;
+	let b = s.rfind('"')?;
+	if b <= a { return None; }
+	let inner = &s[a + 1..b];
+	if inner.contains('\\') || inner.contains('"') || !inner.bytes().all(|c| (0x20..0x7f).contains(&c)) { return None; }
+	Some(cksum(inner.as_bytes()))
+}
+fn dbg_opt(s: &str, out: &mut Vec<u64>) -> Option<()> {
+	if s.trim() == "None" { out.push(0); } else { out.extend([1, dbg_ck(s)?]); }
+	Some(())
+}
+fn dbg_flags(s: &str) -> u64 {
+	let words = s.split(|c: char| c == '{' || c == '}' || c.is_whitespace());
+	words.map(|w| match w { "transitive" => 0x20, "static-phase" => 0x40, "synthetic" => 0x1000, "mandated" => 0x8000, _ => 0 }).sum()
+}
+/// The rows of requires / exports / opens have crate-private fields: they are read off their debug text.  Empty = a string
+/// of such a row cannot be recovered from the debug text (the value is then not compared).
+pub fn canon_module(m: &Module) -> Vec<u64> {
+	fn rows(m: &Module) -> Option<Vec<u64>> {
+		let mut out = vec![ck(m.name.as_inner()), u16::from(m.flags) as u64];
+		opt(m.version.as_deref(), &mut out);
+		let get = |fs: &[(String, String)], k: &str| fs.iter().find(|(n, _)| n == k).map(|(_, v)| v.clone());
+		out.push(m.requires.len() as u64);
+		for r in &m.requires {
+			let fs = dbg_fields(&format!("{r:?}"));
+			out.push(dbg_ck(&get(&fs, "name")?)?);
+			out.push(dbg_flags(&get(&fs, "flags")?));
+			dbg_opt(&get(&fs, "version")?, &mut out)?;
+		}
+		for (texts, to) in [(m.exports.iter().map(|e| format!("{e:?}")).collect::<Vec<_>>(), "exports_to"), (m.opens.iter().map(|e| format!("{e:?}")).collect::<Vec<_>>(), "opens_to")] {
+			out.push(texts.len() as u64);
+			for t in &texts {
+				let fs = dbg_fields(t);
+				out.push(dbg_ck(&get(&fs, "name")?)?);
+				out.push(dbg_flags(&get(&fs, "flags")?));
+				let l = dbg_list(&get(&fs, to)?);
+				out.push(l.len() as u64);
+				for x in &l { out.push(dbg_ck(x)?); }
+			}
+		}
+		out.push(m.uses.len() as u64);
+		for c in &m.uses { out.push(ck(c.as_inner())); }
+		out.push(m.provides.len() as u64);
+		for p in &m.provides {
+			out.push(ck(p.name.as_inner()));
+			out.push(p.provides_with.len() as u64);
+			for c in &p.provides_with { out.push(ck(c.as_inner())); }
+		}
+		Some(out)
+	}
+	rows(m).unwrap_or_default()
 }
 
 // ---------------------------------------------------------------- type annotations (coq/C17/Values.v: canon_type_annotations)
